@@ -9,8 +9,9 @@ inner lines are base instructions or earlier macros (nesting depth <= 3).  Opera
   `lbl` `lbl + 1`  a label local to the block (forward or backward)
   literal / global symbol / `$`
 The inliner reproduces eval_asm.rs's textual substitution on the operand templates and renames block labels apart as
-fresh global labels; a by-value local becomes the parenthesised defining expression over the parenthesised argument
-texts, with `$` replaced by a label at the start of the expansion (arguments are evaluated where the call stands).
+fresh global labels; a by-value local becomes a fresh constant defined at the start of the expansion by the defining
+expression over the parenthesised argument text (arguments are evaluated where the call stands; a label is put there
+whenever an argument mentions `$`, which only adds the alignment demand the call itself has).
 
 G-fn.  Functions `#fn zfN(pa, pb) => body` over expression trees; every call is rendered once as a call and once as the
 parenthesised body with each parameter replaced by the parenthesised argument (simultaneous substitution on trees)."""
@@ -236,10 +237,11 @@ def expand(isa, ri, args, fresh, out, depth=0, notes=None):
         start = fresh.name('zs')
         out.append(('label', start))
     for (t, p, op, k) in mac.prelude:
-        a = textual[p]
-        if start:
-            a = a.replace('$', start)
-        textual[t] = '((%s) %s %d)' % (a, op, k)
+        # by value: computed once, where the call stands, and referred to by a plain name (the implementation's text
+        # is the hygienised local `__t`): in place that is a constant defined at the start of the expansion
+        cname = fresh.name('zt')
+        out.append(('const', cname, '(%s) %s %d' % (textual[p], op, k)))
+        textual[t] = cname
     local_map = {}
     for n in mac.body:
         if n[0] == 'label':
@@ -277,6 +279,8 @@ def inline_program(prog, base_isa):
         if it[0] == 'instr' and is_macro(prog.isa, it[1]):
             notes = {}
             expand(prog.isa, it[1], it[2], fresh, q.items, 0, notes)
+            notes['end'] = fresh.name('ze')          # where the text after the call starts
+            q.items.append(('label', notes['end']))
             q.notes.append((i, notes))
         else:
             q.items.append(it)
@@ -505,7 +509,17 @@ PARAM_POOL = ['pa', 'pb', 'pc', 'value', 'arg1']
 def gen_fn_case(rng):
     """-> (text with calls, text with calls substituted, Prog of the substituted program, feature set)"""
     prog = asm_gen.gen_prog(rng, size_static=True, collide=False, boundary=False, tame=True)
-    syms = list(prog.names)
+    byte_align(prog)
+    # arguments are evaluated before the call whether or not the body reads them, so they must be total: only symbols
+    # that are certainly integers (labels, constants defined by plain arithmetic)
+    syms = [it[1] for it in prog.items if it[0] == 'label']
+    grew = True
+    while grew:
+        grew = False
+        for it in prog.items:
+            if it[0] == 'const' and it[1] not in syms and not re.search(r'[<>=!?&|"]', it[2]) and \
+               all(i in syms or re.fullmatch(r'x[0-9a-fA-F_]+|b[01_]+|o[0-7_]+', i) for i in IDENT.findall(it[2])):
+                syms.append(it[1]); grew = True
     fns = []
     for i in range(rng.range(1, 4)):
         np_ = rng.range(0, 3)
